@@ -57,6 +57,7 @@ import (
 	"strings"
 	"sync"
 	"sync/atomic"
+	"syscall"
 	"testing"
 	"time"
 
@@ -272,6 +273,15 @@ const otherStream = "c05other"
 
 var tainted atomic.Bool // a stalled case left a goroutine spinning inside lal: nothing else may be judged in this process
 
+// procCPU is the CPU time (user + system) this process has consumed so far.
+func procCPU() time.Duration {
+	var ru syscall.Rusage
+	if syscall.Getrusage(syscall.RUSAGE_SELF, &ru) != nil {
+		return 1 << 62 // unknown: never extend a bound
+	}
+	return time.Duration(ru.Utime.Nano() + ru.Stime.Nano())
+}
+
 func bound(n int) time.Duration {
 	return 5*time.Second + time.Duration(n)*time.Second/(1<<20)
 }
@@ -290,8 +300,14 @@ func (f *rtmpFeeder) send(m Msg, payload []byte) (bool, bool) {
 	if err := f.p.Send(m.Type, m.Ts, payload, m.Fmt); err != nil {
 		return true, true
 	}
-	if !f.p.Conn.WaitPeerIdle(bound(len(payload))) {
-		return false, false
+	cpu0, b := procCPU(), bound(len(payload))
+	for round := 0; !f.p.Conn.WaitPeerIdle(b); round++ {
+		// O2 bounds lal's work, not the machine: while this process was given less CPU time than the bound since the
+		// message was sent (other shards and jobs, hypervisor steal) the wait goes on, for at most six more bounds
+		if procCPU()-cpu0 >= b || round >= 6 {
+			return false, false
+		}
+		pbt.Count("bound-extended-process-starved-of-cpu", 1)
 	}
 	return true, f.p.Conn.PeerGone()
 }
@@ -347,13 +363,21 @@ func (f *customizeFeeder) send(m Msg, payload []byte) (bool, bool) {
 	case <-t.C:
 		return false, false
 	}
-	select {
-	case err := <-f.ack:
-		return true, err != nil // lal refuses further input: the customize publisher was dropped
-	case <-f.done: // the feeding goroutine ended (recovered panic)
-		return true, true
-	case <-t.C:
-		return false, false
+	cpu0 := procCPU()
+	for round := 0; ; round++ {
+		select {
+		case err := <-f.ack:
+			return true, err != nil // lal refuses further input: the customize publisher was dropped
+		case <-f.done: // the feeding goroutine ended (recovered panic)
+			return true, true
+		case <-t.C:
+			// same rule as for the rtmp feeder: the bound is on lal's work, a process starved of CPU waits on
+			if procCPU()-cpu0 >= bound(len(payload)) || round >= 6 {
+				return false, false
+			}
+			pbt.Count("bound-extended-process-starved-of-cpu", 1)
+			t.Reset(bound(len(payload)))
+		}
 	}
 }
 
